@@ -1,6 +1,7 @@
 """C18 - parser modules: chosen by name, fed the right data, contained (E1 dispatch product + containment sequences)."""
 import itertools
 import json
+from mc import strictjson
 import sys
 
 from mc import core, pelgen, decode, impl, imphook
@@ -225,7 +226,7 @@ def _m2c00(case):
         from udparsers.m2c00.m2c00 import parseUDToJson
         try:
             text = parseUDToJson(sub, ver, memoryview(payload))
-            doc = json.loads(text)
+            doc = strictjson.loads(text)
         except Exception as e:
             _bad(out, case, 'm2c00-error', repr(e))
             return out
